@@ -835,6 +835,9 @@ Hstartwrite(int32 file_id, uint16 tag, uint16 ref, int32 length)
     /* if new element set the length */
     if (access_rec->new_elem && (Hsetlength(ret, length) == FAIL)) {
         Hendaccess(ret);
+        /* the element did not exist before this call: its empty descriptor
+           does not stay behind either */
+        Hdeldd(file_id, BASETAG(tag), ref);
         HGOTO_ERROR(DFE_BADLEN, FAIL);
     } /* end if */
 
